@@ -91,39 +91,43 @@ func (t *Table) ToMarkdown() string {
 		return ""
 	}
 
+	// The table is as wide as its widest row: the delimiter row has one cell per
+	// column and shorter rows are padded with empty cells (a GFM parser drops the
+	// cells a row has beyond the delimiter row)
+	cols := 0
+	for _, row := range t.Rows {
+		if len(row) > cols {
+			cols = len(row)
+		}
+	}
+	if cols == 0 {
+		return ""
+	}
+
 	var sb strings.Builder
+	writeRow := func(row []Cell) {
+		for j := 0; j < cols; j++ {
+			sb.WriteString("| ")
+			if j < len(row) {
+				sb.WriteString(escapeMarkdownCell(row[j].Text))
+			}
+			sb.WriteString(" ")
+		}
+		sb.WriteString("|\n")
+	}
 
 	// Header row
-	for j, cell := range t.Rows[0] {
-		sb.WriteString("| ")
-		sb.WriteString(escapeMarkdownCell(cell.Text))
-		sb.WriteString(" ")
-		if j == len(t.Rows[0])-1 {
-			sb.WriteString("|")
-		}
-	}
-	sb.WriteString("\n")
+	writeRow(t.Rows[0])
 
 	// Separator
-	for j := range t.Rows[0] {
+	for j := 0; j < cols; j++ {
 		sb.WriteString("|---")
-		if j == len(t.Rows[0])-1 {
-			sb.WriteString("|")
-		}
 	}
-	sb.WriteString("\n")
+	sb.WriteString("|\n")
 
 	// Data rows
 	for i := 1; i < len(t.Rows); i++ {
-		for j, cell := range t.Rows[i] {
-			sb.WriteString("| ")
-			sb.WriteString(escapeMarkdownCell(cell.Text))
-			sb.WriteString(" ")
-			if j == len(t.Rows[i])-1 {
-				sb.WriteString("|")
-			}
-		}
-		sb.WriteString("\n")
+		writeRow(t.Rows[i])
 	}
 
 	return sb.String()
